@@ -131,9 +131,23 @@ int dealign_msa(struct msa* msa)
 
         for(i = 0; i < msa->numseq;i++){
                 seq = msa->sequences[i];
+                if(msa->aligned == ALN_STATUS_FINAL){
+                        /* finalise_alignment() replaced seq->seq by the gapped row: take the gap characters out again */
+                        int c = 0;
+                        for(j = 0; j < msa->alnlen;j++){
+                                if(seq->seq[j] != '-'){
+                                        seq->seq[c] = seq->seq[j];
+                                        c++;
+                                }
+                        }
+                        seq->seq[c] = 0;
+                }
                 for(j = 0; j <=  seq->len;j++){
                         seq->gaps[j] = 0;
                 }
+        }
+        if(msa->aligned == ALN_STATUS_FINAL){
+                msa->alnlen = 0;
         }
         msa->aligned = ALN_STATUS_UNALIGNED;
         return OK;
